@@ -243,7 +243,8 @@ def rerun_on_older_base(d, prop, tier, seeded=False):
     tmp = tempfile.mkdtemp(prefix="verif-refbase-")
     try:
       export_tree(commit, os.path.join(tmp, "t"))
-      rc, _ = sh(["patch", "-p1", "-s", "--dry-run", "-i",
+      rc, _ = sh(["patch", "-p1", "-s", "--dry-run"] +
+                 ([] if seeded else ["-F0"]) + ["-i",
                   os.path.join(d, "patch.diff")], cwd=os.path.join(tmp, "t"))
       if rc:
         continue
@@ -256,9 +257,11 @@ def rerun_on_older_base(d, prop, tier, seeded=False):
       rc, keys = run_check(prop, os.path.join(tmp, "t"), tier, SEED)
       # a key is "<operation>/<mechanism>": a refactoring may move where the
       # base tree's own defect surfaces (another operation), never what it is
-      mech = set(k.split("/", 1)[-1] for k in key_names(bkeys))
+      # (and "...@function" names the frame an unexpected exception came from)
+      mname = lambda k: k.split("/", 1)[-1].split("@")[0]
+      mech = set(mname(k) for k in key_names(bkeys))
       extra = [k for k in key_names(keys) if k not in key_names(bkeys) and
-               k.split("/", 1)[-1] not in mech]
+               mname(k) not in mech]
       if seeded:
         # (by full key name: the seeded change is the only difference between
         # the two trees, so a key the base tree does not report is its doing)
@@ -291,8 +294,10 @@ def do_run_refactors(ids, tier):
     try:
       shutil.copytree("/repo/audiolazy", os.path.join(tmp, "audiolazy"),
                       ignore=shutil.ignore_patterns("__pycache__"))
-      rc, out = sh(["patch", "-p1", "-s", "--no-backup-if-mismatch", "-i",
-                    os.path.join(d, "patch.diff")], cwd=tmp)
+      # (no fuzz: a hunk that only fits approximately was written against
+      # other code - e.g. it would put back lines a later fix: commit changed)
+      rc, out = sh(["patch", "-p1", "-s", "-F0", "--no-backup-if-mismatch",
+                    "-i", os.path.join(d, "patch.diff")], cwd=tmp)
       if rc:
         # later fix: commits rewrote the lines the patch touches: re-run it on
         # the newest commit it still applies to, differentially - it is silent
